@@ -44,7 +44,7 @@ Theorem closed_form_is_posterior_mode fixed m n A b x0 ce cx x :
     (pos_def n Px -> forall y, length y = n -> y <> x -> post_q A Pe Px b x0 x < post_q A Pe Px b x0 y).
 Proof.
   intros G H Ce Cx (HA & HAm & HCe & HCem & HCx & HCxn & Hb).
-  unfold map_direct in H.
+  unfold map_direct in H. destruct (sparse_single ce || sparse_single cx); [discriminate|].
   rewrite (expand_cov_meant fixed m ce) in H by (destruct G as [G|[G _]]; [left|right]; exact G).
   rewrite (expand_cov_meant fixed n cx) in H by (destruct G as [G|[_ G]]; [left|right]; exact G).
   fold Ce Cx in H.
@@ -131,8 +131,21 @@ Proof.
 Qed.
 
 Theorem scalar_mean_refused fixed m n A b x0 ce cx :
-  length x0 <> n -> map_direct fixed m n A b x0 (Some ce) (Some cx) = EValue.
-Proof. intros H. unfold map_direct. apply map_core_scalar_mean_refused. exact H. Qed.
+  length x0 <> n ->
+  map_direct fixed m n A b x0 (Some ce) (Some cx) = EValue \/ map_direct fixed m n A b x0 (Some ce) (Some cx) = EAttr.
+Proof.
+  intros H. unfold map_direct. destruct (sparse_single ce || sparse_single cx); [right; reflexivity|].
+  left. apply map_core_scalar_mean_refused. exact H.
+Qed.
+
+Theorem sparse_single_refused fixed m n A b x0 ce cx :
+  sparse_single ce = true \/ sparse_single cx = true ->
+  map_direct fixed m n A b x0 (Some ce) (Some cx) = EAttr /\ sample_direct fixed m n A b x0 (Some ce) (Some cx) = SErr EAttr.
+Proof.
+  intros H. unfold map_direct, sample_direct.
+  assert (E : sparse_single ce || sparse_single cx = true) by (apply orb_true_iff; exact H).
+  rewrite E. split; reflexivity.
+Qed.
 
 (* a value is only ever returned with both covariances available *)
 Theorem value_needs_cov fixed m n A b x0 ce cx x :
@@ -201,7 +214,7 @@ Theorem closed_form_solves_normal_equations fixed m n A b x0 ce cx x Pe Px :
   qmatvec (post_prec n A Pe Px) x = post_rhs n A Pe Px b x0.
 Proof.
   intros G H Ce Cx (HA & HAm & HCe & HCem & HCx & HCxn & Hb) IPe IPx HS.
-  unfold map_direct in H.
+  unfold map_direct in H. destruct (sparse_single ce || sparse_single cx); [discriminate|].
   rewrite (expand_cov_meant fixed m ce) in H by (destruct G as [G|[G _]]; [left|right]; exact G).
   rewrite (expand_cov_meant fixed n cx) in H by (destruct G as [G|[_ G]]; [left|right]; exact G).
   fold Ce Cx in H.
@@ -268,7 +281,7 @@ Proof.
   destruct W as (HA & HAm & HCe & HCem & HCx & HCxn & Hb).
   destruct (qinv_shape _ _ IPx) as [WPx SPx]. fold Cx in WPx, SPx. rewrite HCxn in *.
   destruct (post_prec_shape n A Pe Px HA WPx SPx) as [WH LH].
-  unfold map_direct in H.
+  unfold map_direct in H. destruct (sparse_single ce || sparse_single cx); [discriminate|].
   rewrite (expand_cov_meant fixed m ce) in H by (destruct G as [G|[G _]]; [left|right]; exact G).
   rewrite (expand_cov_meant fixed n cx) in H by (destruct G as [G|[_ G]]; [left|right]; exact G).
   destruct (map_core_balance m n A _ _ b x0 HA HAm HCe HCem HCx HCxn Hb x H) as (_ & Hx & _).
@@ -409,3 +422,36 @@ Theorem gd_cov_after_compute_cov dim g obs :
                  | None => cov_getter (mk_param (gd_param g)) (mk_cov (gd_kind g) (gd_s g) (gd_v g) (gd_M g)) None
                  end.
 Proof. intros H. unfold gd_cov. rewrite H. destruct (compute_cov_model _ _ _); reflexivity. Qed.
+
+(* ---------------------------------------------------------------------------------------------
+   the hypotheses of closed_form_equals_posterior_mean as a computed fact about the instance that runs
+   --------------------------------------------------------------------------------------------- *)
+Lemma shape_ok_spec r c M : shape_ok r c M = true -> wf_mat c M /\ length M = r.
+Proof.
+  unfold shape_ok. intros H. apply andb_true_iff in H as [H1 H2]. split; [|apply Nat.eqb_eq; exact H1].
+  unfold wf_mat. apply Forall_forall. intros row Hr. rewrite forallb_forall in H2. apply Nat.eqb_eq. exact (H2 row Hr).
+Qed.
+
+Theorem hyps_ok_sound fixed m n A b x0 ce cx x y :
+  hyps_ok m n A b ce cx = true ->
+  cov_guard fixed ce cx ->
+  map_direct fixed m n A b x0 (Some ce) (Some cx) = Val x ->
+  post_mean_exact m n A b x0 ce cx = Some y ->
+  length y = n -> x = y.
+Proof.
+  unfold hyps_ok. intros H G HM HY Hy.
+  apply andb_true_iff in H as [H HI]. apply andb_true_iff in H as [H Lb]. apply andb_true_iff in H as [H SCx].
+  apply andb_true_iff in H as [SA SCe].
+  destruct (qinv (dense_of true m ce)) as [Pe|] eqn:IPe; [|discriminate].
+  destruct (qinv (dense_of true n cx)) as [Px|] eqn:IPx; [|discriminate].
+  apply andb_true_iff in HI as [KS KC].
+  destruct (qinv (post_prec n A Pe Px)) as [C|] eqn:IC; [|discriminate].
+  destruct (shape_ok_spec _ _ _ SA) as [WA LA]. destruct (shape_ok_spec _ _ _ SCe) as [WCe LCe].
+  destruct (shape_ok_spec _ _ _ SCx) as [WCx LCx]. apply Nat.eqb_eq in Lb.
+  apply (closed_form_equals_posterior_mean fixed m n A b x0 ce cx x y G HM HY); try exact Hy.
+  - unfold lg_wf. repeat split; assumption.
+  - intros Pe' E. rewrite IPe in E. injection E as <-.
+    destruct (qinv_shape _ _ IPe) as [WPe SPe]. rewrite LCe in WPe.
+    apply q_sym_of_transpose; [exact WPe | apply qcll_eqb_eq; exact KS].
+  - intros Pe' Px' E1 E2. rewrite IPe in E1. injection E1 as <-. rewrite IPx in E2. injection E2 as <-. exists C. exact IC.
+Qed.
